@@ -303,6 +303,43 @@ theorem C16_query_inputs (comment : List Char) :
 example : (customQuery "Q UPDATE T SET A = $v$ WHERE B = $w$ OR A=$v$;".toList).query
     = "UPDATE T SET A = $1 WHERE B = $2 OR A=$1;".toList := by decide
 
+/-! ### guard values -/
+
+theorem matchEnumPlaceholder_ne_hash (c : Char) (cs : List Char) (h : c ≠ '#') :
+    matchEnumPlaceholder (c :: cs) = none := by
+  unfold matchEnumPlaceholder
+  split
+  · rename_i heq
+    simp only [List.cons.injEq] at heq
+    exact absurd heq.1 h
+  · rfl
+
+theorem replaceEnumsAux_no_hash (lit : List Char → List Char → Option (List Char)) :
+    ∀ (fuel : Nat) (s : List Char), s.length < fuel → (∀ c ∈ s, c ≠ '#') → replaceEnumsAux lit fuel s = some s
+  | 0, _, h, _ => by omega
+  | _ + 1, [], _, _ => by simp [replaceEnumsAux]
+  | fuel + 1, c :: cs, hl, hh => by
+    have hc : c ≠ '#' := hh c (by simp)
+    simp only [replaceEnumsAux, matchEnumPlaceholder_ne_hash c cs hc]
+    rw [replaceEnumsAux_no_hash lit fuel cs (by simp at hl; omega) (fun x hx => hh x (by simp [hx]))]
+    rfl
+
+/-- **guard values**: a guard value without enum placeholder reaches the DEFAULT and the CHECK of
+its column verbatim — whatever words it contains, table names of the file included: no word of it
+is altered. -/
+theorem C16_guard_value_verbatim (lit : List Char → List Char → Option (List Char))
+    (owner col value : List Char) (h : ∀ c ∈ value, c ≠ '#') :
+    guardConstraints lit owner col value =
+      some [kwAlterTable ++ sqlTableName owner ++ " ALTER COLUMN ".toList ++ col ++ " SET DEFAULT ".toList ++ value ++ [';'],
+            kwAlterTable ++ sqlTableName owner ++ " ADD CHECK(".toList ++ col ++ " = ".toList ++ value ++ ");".toList] := by
+  unfold guardConstraints replaceEnums
+  rw [replaceEnumsAux_no_hash lit (value.length + 1) value (by omega) h]
+
+/-- non-vacuity: the value `'Repas'` of a guard next to a table struct `Repas` -/
+example : guardConstraints (fun _ _ => none) "Repas".toList "kind".toList "'Repas'".toList =
+    some ["ALTER TABLE repass ALTER COLUMN kind SET DEFAULT 'Repas';".toList,
+          "ALTER TABLE repass ADD CHECK(kind = 'Repas');".toList] := by decide
+
 example : replaceWords (tableReplacer ["Repas".toList]) "Repas MyRepas Repas_x (Repas)".toList
     = "repass MyRepas Repas_x (repass)".toList := by decide
 
